@@ -12,8 +12,10 @@ from .core import derive, digest, fast_digest
 from .known import classify
 from .world import DrawCapExceeded, Schedule
 
-DIGIT_KNOBS = [None, None, None, None, "123456789", "01"]
-WORD_KNOBS = [None, None, None, None, string.ascii_lowercase, "ab_"]
+# legal narrowings / widenings of what \d and \w generate: re gives both their Unicode meaning, so
+# Arabic-Indic or Devanagari digits and Cyrillic / accented letters are as good as ASCII ones
+DIGIT_KNOBS = [None, None, None, None, "123456789", "01", "\u0660\u0661\u0662\u0663\u0669", "7\u0967\u0968"]
+WORD_KNOBS = [None, None, None, None, string.ascii_lowercase, "ab_", "\u0430\u0431\u0432\u0433_", "\u00e9\u00df\u00f1z9\u0665"]
 LETTER_KNOBS = [
     string.printable,                      # contains \n \r \t \x0b \x0c
     None,                                  # generator default
@@ -24,6 +26,7 @@ LETTER_KNOBS = [
     string.ascii_letters + string.digits,
     string.punctuation + " ",
     "z",
+    "ab \u00e4\u00f6\u20ac\u03bb\u0436\u0660",      # letters outside ASCII, incl. a non-ASCII digit
 ]
 MAX_REPEAT_KNOBS = [0, 1, 2, 8, 32, 32, 43, 44, 45, 64, 100]
 
